@@ -960,6 +960,11 @@ impl<'d> Exec<'d> {
 pub fn run_case(cfg: &CaseCfg, seed: u64, driver: &mut dyn Driver, max_steps: usize) -> (RunLog, Shared) {
     vtime::reset();
     let world = World::new(seed);
+    {
+        // watchdog: two orders of magnitude above what any legitimate operation needs
+        let mut w = world.borrow_mut();
+        w.budget_bytes = w.budget_bytes.max(16 * cfg.tx);
+    }
     let mut rx = vec![0u8; cfg.rx];
     let mut tx = vec![0u8; cfg.tx];
     let will_props: Vec<Property<'_>> = cfg
